@@ -86,6 +86,8 @@ type config struct {
 	srcs    []source // nil: one file with trusted_peers = raw; else the configuration sources (sources.go)
 	ops     []int    // +(p+1) Trust(p), -(p+1) Distrust(p)
 	ovs     []override
+	// suite pol: the cluster Config built from configuration steps (pol.go); nil: Default() plus the table of `kind`
+	cfgOverride *ipfscluster.Config
 }
 
 func rawStr(raw []int) string {
@@ -465,6 +467,9 @@ func (w *world) handshake(s *served, caller int) error {
 
 // clusterConfig is the cluster configuration section with the policy table of the case.
 func clusterConfig(c config) (*ipfscluster.Config, error) {
+	if c.cfgOverride != nil {
+		return c.cfgOverride, nil
+	}
 	cfg := &ipfscluster.Config{}
 	if err := cfg.Default(); err != nil {
 		return nil, err
@@ -511,6 +516,12 @@ func (w *world) serve(c config) (*served, error) {
 		cleanup()
 		return nil, err
 	}
+	// NewCluster's first statement: whatever Validate does to the Config happens before the server is built
+	// (a table Validate rejects is served all the same: the closure's missing-entry arm is part of the cases)
+	func() {
+		defer func() { recover() }()
+		cfg.Validate()
+	}()
 	cl := ipfscluster.VerifNewCluster(ctx, ipfscluster.VerifComponents{
 		ID: w.server.h.ID(), Config: cfg, Host: w.server.h, Consensus: cons, Monitor: common.NewStoreMonitor(),
 	})
@@ -1037,6 +1048,10 @@ func main() {
 	}
 	if suite == "rep" {
 		runRep(out, args)
+		return
+	}
+	if suite == "pol" {
+		runPol(out, args)
 		return
 	}
 	w, err := newWorld()
